@@ -160,7 +160,7 @@ def run_case(acc, c: dict, monitors: List[Callable], nontrivial: Optional[Callab
             _cfg.RUN_DEBUG_NODES = False
     has_setup = any(nd.setup for nd in prog.nodes)
     rebuild_each = has_setup or warm > 0
-    ref0 = None if (warm or c.get("deferred_setup")) else prog.ref_run(sel, None, debug_on)
+    ref0 = None if (warm or c.get("deferred_setup") or c.get("composed")) else prog.ref_run(sel, None, debug_on)
     state = {"d": None, "ns": None, "pre": None}
     cfg.RUN_DEBUG_NODES = debug_on
     cfg.TAWAZI_PROFILE_ALL_NODES = bool(c.get("profile", False))
@@ -226,6 +226,17 @@ def run_case(acc, c: dict, monitors: List[Callable], nontrivial: Optional[Callab
             fresh()
         H.Tok.FALSY = set(prog.falsy)
         op = make_op(state["d"], prog, selection)
+        if c.get("composed"):
+            import warnings as _w
+            ids_ = prog.ids()
+            with _w.catch_warnings():
+                _w.simplefilter("ignore")
+                comp_ = state["d"].compose("comp", [ids_[0]], ids_[1:], max_concurrency=prog.mc)
+            tok_ = H.Tok(ids_[0], 999000)
+
+            def op():  # noqa: F811
+                r_ = comp_(tok_)
+                return (tok_,) + tuple(r_)
         if deferred:
             ex_ = state["ex"]
             if prog.is_async:
@@ -245,6 +256,8 @@ def run_case(acc, c: dict, monitors: List[Callable], nontrivial: Optional[Callab
             acc.evaluations += 1
             acc.add_hits(res.hook_hits)
             pre = state["pre"]
+            if c.get("composed"):
+                pre = {0: 999000}  # node 0 is the composed DAG's input: its "result" is the supplied token
             stalled = res.outcome == "hang" or res.forced
             if acc.selfcheck < SELFCHECK_PER_SHARD:
                 acc.selfcheck += 1
@@ -320,7 +333,19 @@ def replay_case(c: dict, monitors: List[Callable], prefix, prog: Optional[GProg]
                         if i is not None and prog.nodes[i].setup and i not in pre:
                             pre[i] = e[2]
         H.Tok.FALSY = set(prog.falsy)
-        res = H.run_controlled(make_op(d, prog, selection), prefix=tuple(prefix), is_async=prog.is_async, batch_order=batch_order,
+        op_ = make_op(d, prog, selection)
+        if c.get("composed"):
+            import warnings as _w
+            ids_ = prog.ids()
+            with _w.catch_warnings():
+                _w.simplefilter("ignore")
+                comp_ = d.compose("comp", [ids_[0]], ids_[1:], max_concurrency=prog.mc)
+            tok_ = H.Tok(ids_[0], 999000)
+            pre = {0: 999000}
+
+            def op_():  # noqa: F811
+                return (tok_,) + tuple(comp_(tok_))
+        res = H.run_controlled(op_, prefix=tuple(prefix), is_async=prog.is_async, batch_order=batch_order,
                                early=bool(c.get("early", 0)))
         view = View(prog, res, sel, pre, debug_on, None, src_lines_of(prog, src), ns["__src_file__"])
         view.case = c
